@@ -2896,28 +2896,32 @@ GRwriteimage(int32 riid, int32 start[2], int32 in_stride[2], int32 count[2], voi
                         } /* end if */
                         tmp_data = (void *)((char *)tmp_data + pixel_disk_size);
                     } /* end for */
-                    /* Fill in the y-dim stride lines */
-                    if (fill_ydim == TRUE)
-                        for (k = 1; k < stride[YDIM]; k++) {
-                            if (Hwrite(ri_ptr->img_aid, fill_line_size, fill_line) == FAIL)
-                                HGOTO_ERROR(DFE_WRITEERROR, FAIL);
-                        } /* end for */
-
-                    /* This next write wraps around the high side */
-                    /* of the block and writes the next low side */
-                    /* at the same time. */
-                    if ((fill_hi_size + fill_lo_size) > 0 && i < (count[YDIM] - 1)) {
-                        if (Hwrite(ri_ptr->img_aid, (fill_hi_size + fill_lo_size), fill_line) == FAIL)
+                    /* Finish this line: the high side of the block */
+                    if (fill_hi_size > 0) {
+                        if (Hwrite(ri_ptr->img_aid, fill_hi_size, fill_line) == FAIL)
                             HGOTO_ERROR(DFE_WRITEERROR, FAIL);
                     } /* end if */
-                }     /* end for */
 
-                /* Finish the last chunk of high side fill values */
-                if (fill_hi_size > 0) {
-                    if (Hwrite(ri_ptr->img_aid, fill_hi_size, fill_line) == FAIL)
+                    if (i < (count[YDIM] - 1)) {
+                        /* Fill in the lines the y-dim stride skips ... */
+                        if (fill_ydim == TRUE)
+                            for (k = 1; k < stride[YDIM]; k++) {
+                                if (Hwrite(ri_ptr->img_aid, fill_line_size, fill_line) == FAIL)
+                                    HGOTO_ERROR(DFE_WRITEERROR, FAIL);
+                            } /* end for */
+
+                        /* ... and the low side of the next line of the block */
+                        if (fill_lo_size > 0) {
+                            if (Hwrite(ri_ptr->img_aid, fill_lo_size, fill_line) == FAIL)
+                                HGOTO_ERROR(DFE_WRITEERROR, FAIL);
+                        } /* end if */
+                    }     /* end if */
+                }         /* end for */
+
+                /* write out lines "above" the block */
+                for (i = start[YDIM] + ((count[YDIM] - 1) * stride[YDIM]) + 1; i < ri_ptr->img_dim.ydim; i++)
+                    if (Hwrite(ri_ptr->img_aid, fill_line_size, fill_line) == FAIL)
                         HGOTO_ERROR(DFE_WRITEERROR, FAIL);
-                } /* end if */
-
             }                     /* end if */
             else {                /* don't worry about fill values */
                 int32 stride_add; /* amount to add for stride amount */
